@@ -452,9 +452,9 @@ func init() {
 				k = 4
 			}
 			for at := -1; at < k; at++ {
-				for bp := 0; bp <= 1; bp++ {
+				for bp := 0; bp <= 2; bp++ {
 					kk := k
-					if bp == 1 && tier != "thorough" {
+					if bp >= 1 && tier != "thorough" {
 						kk = 2 // arbitrary breakpoint sets multiply the paths
 						if at >= kk {
 							continue
